@@ -101,8 +101,8 @@ func bmwItemIndexOf(bi *kmip.RequestBatchItem) int {
 	if bi == nil || bi.RequestPayload == nil {
 		return -1
 	}
-	if ref, ok := payloadReg.Load(bi.RequestPayload); ok {
-		return ref.(payloadRef).idx
+	if ref, ok := lookupPayload(bi.RequestPayload); ok {
+		return ref.idx
 	}
 	return -1
 }
